@@ -788,6 +788,16 @@ def check_C13(cx):
                 hists.append(h)
                 meta.append(None)
                 onoff.append((len(hists) - 1, t2, last))
+    # chunk sizes beyond 32 bits (the parameter is a size_t): no boundary of such a chunk lies inside any buffer, so the layout is the plain
+    # one — whatever the low 32 bits of the size are
+    for big in (2 ** 32 + 8, 2 ** 32 + 5, 2 ** 33 + 16, 2 ** 40 + 3, 2 ** 32 + 2):
+        for variant in range(2):
+            t2 = b"\n".join(r.choice(pool) for _ in range(5))
+            pre = ["K 0 4", "K 0 1"] if variant else []
+            h = ["N 0 400 cc"] + pre + ["K 0 %d" % big, "O 0 40", "A 0 %s" % cases.hexs(t2), "G 0", "D 0 0 400", "F 0"]
+            hists.append(h)
+            meta.append(None)
+            onoff.append((len(hists) - 1, t2, 0))
     # a fitting call that fails after some of its lines were laid out, directly followed (no asm_set_offset, no setter) by another call:
     # the second call starts at the unchanged offset and is laid out from there
     afterfail = []
